@@ -418,6 +418,34 @@ func c09(r *core.Report) {
 		}
 	}
 
+	// ---- C09-PARTCOUNT: MTU() promises limit * partSize bytes; that holds only if the number of
+	// parts is exactly ceil(size / partSize) — one part too many and a payload of MTU() bytes is refused
+	// (or sent with an extra empty fragment the receiver may reject).
+	r.Rule("C09-PARTCOUNT", "the part count compared with the header-field limit is the ceiling of size / part size", 2)
+	for _, site := range []struct{ rel, fn string }{{"s/fragswarm", "swarm.Tell"}, {"p/mbapp", "Swarm.send"}} {
+		fn := needFn(r, site.rel, site.fn)
+		if fn == nil {
+			continue
+		}
+		found := 0
+		for _, in := range core.AllInstrs(fn) {
+			b, ok := in.(*ssa.BinOp)
+			if !ok || b.Op != token.GTR {
+				continue
+			}
+			k, isK := core.ConstInt(b.Y)
+			if !isK || (k != 255 && k != 65535) {
+				continue
+			}
+			found++
+			okC, why := isCeilDiv(b.X, 0)
+			r.Check(okC, "C09-PARTCOUNT", core.FnName(fn)+" part count", p.Pos(b.Pos()), "the part count is size/partSize rounded up (recognised form: "+why+")", "the part count is not the ceiling of size / part size ("+why+"): a payload of exactly MTU() bytes needs one part more than the header field allows and is refused, or an extra empty fragment is sent")
+		}
+		if found == 0 {
+			r.Fail("C09-PARTCOUNT: %s: no comparison of a part count with the header-field limit found", core.FnName(fn))
+		}
+	}
+
 	// ---- C09-RECV-LIMIT
 	r.Rule("C09-RECV-LIMIT", "a read bounded by the MTU rejects an oversize message instead of delivering its prefix", 1)
 	h := resolveHubs(r)
@@ -481,4 +509,101 @@ func narrowName(v ssa.Value) string {
 		}
 	}
 	return "value"
+}
+
+// isCeilDiv recognises the module's ways of writing ceil(t/p):
+//
+//	q := t / p; if p*q < t { q++ }        (strict comparison)
+//	q := t / p; if t%p > 0 { q++ }        (or != 0)
+//	(t + p - 1) / p
+//	... optionally followed by: if q == 0 { q = 1 }
+func isCeilDiv(v ssa.Value, depth int) (bool, string) {
+	v = core.Through(v)
+	if depth > 3 {
+		return false, "too deep"
+	}
+	if q, ok := v.(*ssa.BinOp); ok && q.Op == token.QUO {
+		// (t + p - 1) / p
+		num, okN := core.Through(q.X).(*ssa.BinOp)
+		if okN && num.Op == token.SUB {
+			if k, isK := core.ConstInt(num.Y); isK && k == 1 {
+				if add, okA := core.Through(num.X).(*ssa.BinOp); okA && add.Op == token.ADD && (core.Through(add.X) == core.Through(q.Y) || core.Through(add.Y) == core.Through(q.Y)) {
+					return true, "(t + p - 1) / p"
+				}
+			}
+		}
+		if okN && num.Op == token.ADD {
+			if sub, okS := core.Through(num.Y).(*ssa.BinOp); okS && sub.Op == token.SUB && core.Through(sub.X) == core.Through(q.Y) {
+				if k, isK := core.ConstInt(sub.Y); isK && k == 1 {
+					return true, "(t + (p - 1)) / p"
+				}
+			}
+		}
+		return false, "a plain division rounds down"
+	}
+	phi, ok := v.(*ssa.Phi)
+	if !ok || len(phi.Edges) != 2 {
+		return false, "not a division followed by a conditional increment"
+	}
+	for i := 0; i < 2; i++ {
+		base, alt := core.Through(phi.Edges[i]), core.Through(phi.Edges[1-i])
+		pred := phi.Block().Preds[i]
+		iff, okI := pred.Instrs[len(pred.Instrs)-1].(*ssa.If)
+		if !okI {
+			continue
+		}
+		altBlk := phi.Block().Preds[1-i]
+		trueToAlt := pred.Succs[0] == altBlk
+		cond, okB := iff.Cond.(*ssa.BinOp)
+		if !okB {
+			continue
+		}
+		// clamp: if q == 0 { q = 1 }
+		if k, isK := core.ConstInt(alt); isK && k == 1 {
+			if cond.Op == token.EQL && core.Through(cond.X) == base && trueToAlt {
+				if z, isZ := core.ConstInt(cond.Y); isZ && z == 0 {
+					okIn, why := isCeilDiv(base, depth+1)
+					return okIn, why + ", at least 1"
+				}
+			}
+			continue
+		}
+		// increment
+		inc, okInc := alt.(*ssa.BinOp)
+		if !okInc || inc.Op != token.ADD || core.Through(inc.X) != base {
+			continue
+		}
+		if k, isK := core.ConstInt(inc.Y); !isK || k != 1 {
+			continue
+		}
+		q, okQ := base.(*ssa.BinOp)
+		if !okQ || q.Op != token.QUO {
+			continue
+		}
+		t, pp := core.Through(q.X), core.Through(q.Y)
+		if !trueToAlt {
+			return false, "the increment is taken on the false edge of its test"
+		}
+		switch cond.Op {
+		case token.LSS:
+			if m, okM := core.Through(cond.X).(*ssa.BinOp); okM && m.Op == token.MUL && core.Through(cond.Y) == t {
+				a, b := core.Through(m.X), core.Through(m.Y)
+				if (a == pp && b == ssa.Value(q)) || (b == pp && a == ssa.Value(q)) {
+					return true, "q := t/p; if p*q < t { q++ }"
+				}
+			}
+		case token.GTR, token.NEQ:
+			if m, okM := core.Through(cond.X).(*ssa.BinOp); okM && m.Op == token.REM && core.Through(m.X) == t && core.Through(m.Y) == pp {
+				if z, isZ := core.ConstInt(cond.Y); isZ && z == 0 {
+					return true, "q := t/p; if t%p > 0 { q++ }"
+				}
+			}
+		case token.LEQ:
+			return false, "the increment is taken when p*q <= t, i.e. also when p divides t"
+		case token.GEQ:
+			return false, "the increment is taken when t%p >= 0, i.e. always"
+		}
+		return false, "the increment's test is not a remainder test"
+	}
+	return false, "not a division followed by a conditional increment"
 }
